@@ -10,6 +10,12 @@ caught compiles, keeps `go test ./core/` green and made the quick tier print VIO
       invalidation)                                                                             -> caught
   M4  surecord.go callObservers: queued invalidations dropped (only the changed member notified) -> caught
   M5  surecord.go put(): the same-value early return happens before the invalid flag is cleared -> caught
+  S1  (seeded/C35-copy-shares-dependents, written independently) surecord.go copyDeps: shallow
+      maps.Clone, record and copy share the backing arrays of the dependents slices; with >= 3
+      rules already reading a field, original and copy each learning a different further
+      dependent overwrite each other's slot -> stale rule value / missing notification.
+      Reached by the fanout scenarios of the driver (extra rule fields g, h, k reading a;
+      copy; both records go on evaluating different rules); bin/seedtest -> VIOLATION       -> caught
   (M2  copy sharing the invalid map with the original is also caught, but the repository's own
        TestSuRecord_Concurrency already fails on it - concurrent map write - so it is not counted)
 """
@@ -20,7 +26,7 @@ SKIP_MC = os.environ.get("VERIF_SKIP_MC") == "1"
 
 META = {
  "engine": "tla-record",
- "text": "TLC exhausts Record.tla (rule chain c=a+b, d=c*2, conditional e; set/get/delete/invalidate/copy/observe on 1-2 records, values 0..2) for 'Get returns the rule value computed from current field values', cache freshness and notification of every invalidation; TLC-generated operation sequences and seeded random walks are executed on the real SuRecord (Go API and compiled Suneido code, rules as Rule_* globals) and every Get result and observer notification is validated by TLC trace validation against the same spec",
+ "text": "TLC exhausts Record.tla (rule chain c=a+b, d=c*2, conditional e, in the conformance part also g,h,k = a+1,2,3; set/get/delete/invalidate/copy/observe on 1-2 records, values 0..2) for 'Get returns the rule value computed from current field values', cache freshness and notification of every invalidation; TLC-generated operation sequences and seeded random walks are executed on the real SuRecord (Go API and compiled Suneido code, rules as Rule_* globals) and every Get result and observer notification is validated by TLC trace validation against the same spec",
  "note": "trusts TLC; rules are three fixed pure functions; observer notifications compared as sets (order/repetition free); small-scope bounds in evidence",
  "technique": "TLA+ model checking (TLC) + model-based test generation + trace validation of the real SuRecord",
 }
@@ -83,7 +89,7 @@ def run(ctx):
         ctx.report_rejection(trace, res)
     ctx.cov["operations_on_real_records"] = summ.get("ops", 0)
     ctx.assumptions += [
-        "rules are the pure functions c=a+b, d=c*2, e=(a is 0)?d:b (e reads b through GetDefault/GetIfPresent)",
+        "rules are the pure functions c=a+b, d=c*2, e=(a is 0)?d:b (e reads b through GetDefault/GetIfPresent), g=a+1, h=a+2, k=a+3 (g,h,k only in the conformance part: up to 5 rules depend on one field); rules are found as Rule_* globals or attached with AttachRule",
         "observer notifications are compared as sets: every newly invalidated field must be notified to every observer; order and repetition are free",
         "a member that was explicitly Set is a current field value until it is invalidated (then its rule recomputes it), as in the code",
         "TLC exhaustive bounds: see tlc_runs",
